@@ -343,6 +343,14 @@ CD = It("CdMatchingIterator", DITER, 4, "abcd", True,
         "gn_key(r[0]) == i2gk(self.terms, t[0]) && gn_key(r[1]) == i2gk(self.terms, t[1]) && gn_key(r[2]) == i2gk(self.terms, t[2]) && gn_key(r[3]) == i2gk(self.terms, t[3])")
 
 
+def _aliases(src, info):
+    """type aliases of the file (R0 applied); Gspo is the api alias (GraphName<T>, [T; 3])."""
+    out = []
+    for m in re.finditer(r"^(?:pub )?type \w+<[^=]*> = .*;$", src, re.M):
+        out.append(r0_types(m.group(0), info))
+    return out
+
+
 def _iterator(it, src, info, bounds, bare=False):
     parts = []
     st = rsx.cut_item(src, r"pub struct " + it.name + r"\b")
@@ -352,7 +360,18 @@ def _iterator(it, src, info, bounds, bare=False):
     hdr_iter = r"impl<" + re.escape(g) + r"> Iterator for " + it.name + "<" + re.escape(g) + ">"
     nxt = build_next(it, src, info, hdr_iter, bare=bare)
     if bare:
-        parts.append("impl<%s> %s<%s>\n%s{\n%s\n}\n" % (it.generics_iter[0], it.name, it.generics_iter[1], _where(bounds), _pub(nxt)))
+        # every other method of the type (helpers a refactoring may have introduced), except the boxed
+        # constructor (Box<dyn Iterator>, closures: outside Verus) -- so that mutual recursion is seen too
+        helpers = []
+        for header, o, c in rsx.impl_blocks(src, it.name):
+            for fname in rsx.fns_in(src, o, c):
+                if fname in ("boxed", "next"):
+                    continue
+                f = rsx.cut_fn(src[o:c + 1], fname)
+                f = r2_debug_assert(r5_array_patterns(r0_types(f, info), info), info)
+                f, _ = rsx.replace_code(f, r"Option<Self::Item>", "Option<%s>" % it.item_ty)
+                helpers.append(rsx.add_dummy_loop_decreases(_pub(f)))
+        parts.append("impl<%s> %s<%s>\n%s{\n%s\n%s\n}\n" % (it.generics_iter[0], it.name, it.generics_iter[1], _where(bounds), _pub(nxt), "\n".join(helpers)))
     else:
         parts.append(it.free_fns() + it.spec_impl(_where(bounds)) + _pub(nxt) + "\n}\n")
     return parts
@@ -433,6 +452,8 @@ def build_bare(repo, name):
             f = rsx.cut_fn(src, nm, within=r"impl<'a, TI, M> GraphNameData<'a, TI, M>")
             fns.append(rsx.add_spec(r0_types(f, info), spec, ret=None if nm == "update" else "r"))
         parts.append(GND_SPECS + "\n".join(fns) + "\n}\n")
+    parts.append("pub type Gspo<T> = (GraphName<T>, [T; 3]);")
+    parts += _aliases(src, info)
     parts += _iterator(it, src, info, BOUNDS[name], bare=True)
     spec = open(os.path.join(HERE, "..", "contracts", "iter", "spec.rs")).read()
     info["text"] = ("use vstd::prelude::*;\nuse vstd::std_specs::cmp::PartialEqSpec;\nverus! {\n" + spec + PRELUDE_EXTRA
